@@ -77,6 +77,13 @@ Theorem C07_touch_rebuilds_downstream : forall rs f1 clk x,
 Proof. exact touch_rebuilds_downstream. Qed.
 Print Assumptions C07_touch_rebuilds_downstream.
 
+(* ... where [down x rs] is exactly the set of targets reachable from x along normal-prerequisite edges
+   (the inductive relation [downstream]) *)
+Theorem C07_down_is_reachability : forall rs x t,
+  wfb rs = true -> leaves_flat rs -> (In t (down x rs) <-> downstream rs x t).
+Proof. exact down_downstream. Qed.
+Print Assumptions C07_down_is_reachability.
+
 (* Make never stops with  No rule to make target  when every prerequisite exists or is the target of some rule *)
 Theorem C07_build_no_fail : forall rs f clk,
   (forall r p, In r rs -> In p (r_prereqs r ++ r_order r) -> f p <> None \/ has_rule rs p = true) ->
